@@ -136,6 +136,8 @@ def main():
             lines = src.split("\n")
             i = rng.below(len(lines) + 1)
             bad = rng.pick(["`", "@", "#", "$", "\\", "\x01", "\x7f", "'", "\"", "0x", "1u7", "é",
+                            # stray characters whose last byte lies at either end of the continuation-byte range, 2 to 4 bytes
+                            "\u00bf", "\u00ff", "\u20bf", "\u0080", "\u07ff", "\uffff", "\U0001f63f", "\U0010ffff", "\u20bf\u00bf",
                             # escapes that do not denote a character: surrogates, beyond U+10FFFF, empty, too long, bad hex
                             '"\\u{d800}"', '"\\u{dfff}"', '"\\u{00d900}"', '"\\u{110000}"', '"\\u{}"', '"\\u{1234567}"',
                             '"\\xg1"', '"\\q"', "'\\u{d800}'", "'ab'", "''", "0b2", "0x1g", "340282366920938463463374607431768211456",
